@@ -407,12 +407,12 @@ def coq_gate(rep, prop, cone_files, extra_property_files=()):
     return pa["ok"]
 
 
-def coqchk_property(rep, prop, extra_property_files=()):
+def coqchk_property(rep, prop, extra_property_files=(), budget=900):
     """thorough tier: re-check the compiled property file (and everything it depends on) with the independent checker and record
     the axioms it reports; anything outside the allowed list, or a checker failure, is a violation (no failing input)."""
     mods = ["PV.Properties.%s" % prop] + ["PV." + f[:-2].replace("/", ".") for f in extra_property_files]
     with BuildLock():
-        rc, out, wall = run("timeout 2400 coqchk -silent -o -Q . PV %s" % " ".join(mods), cwd=COQ, timeout=2500)
+        rc, out, wall = run("timeout %d coqchk -silent -o -Q . PV %s" % (budget, " ".join(mods)), cwd=COQ, timeout=budget + 60)
     axioms, on = [], False
     for line in out.split("\n"):
         if line.startswith("* Axioms:"):
@@ -430,6 +430,12 @@ def coqchk_property(rep, prop, extra_property_files=()):
     unsafe = [l for l in out.split("\n") if ("type-in-type" in l or "unsafe" in l or "positivity is assumed" in l) and "<none>" not in l]
     rep.extra["coqchk"] = {"cmd": "coqchk -silent -o -Q . PV " + " ".join(mods), "exit": rc, "wall_s": round(wall, 1), "axioms": axioms,
                            "unsafe_flags": unsafe}
+    if rc == 124:
+        # the independent re-check did not finish within its budget: recorded, neither a pass of coqchk nor a violation (the
+        # theorems were accepted by coqc's kernel in the gate above)
+        rep.extra["coqchk"]["exit"] = "timeout after %d s" % budget
+        rep.notes.append("coqchk did not finish within %d s; the kernel check by coqc stands, the independent re-check is incomplete" % budget)
+        return True
     if rc != 0:
         rep.violation("coqchk rejects the compiled development of %s" % prop, {"kind": "proof-obligation", "broken": "coqchk " + " ".join(mods),
                                                                              "log_tail": "\n".join(out.split("\n")[-30:])}, False, {"kind": "coqchk"})
